@@ -417,6 +417,36 @@ theorem solve_returns_correct (hzero : InverseCircuitEndsInZero) (np : Nat) (adj
   solve_sound np adj hsym s h
     (final_tableau_is_zero hzero (graphSTab np adj) (Solver.graphSTab_good np adj hsym) s h).2
 
+/-- the time-reversed solver model as a function from graphs to circuits (number of emitters, operation list in time order) — the shape
+    in which C10 (`Alt.Parts.solver`) and `solver_correct_statement` use a solver -/
+def modelSolver (np : Nat) (adj : Nat → Nat → Bool) : Option (Nat × List COp) :=
+  match Solver.solve (graphSTab np adj) with
+  | .ok s => some (s.ne, s.cops)
+  | .error _ => none
+
+/-- **every circuit the model solver returns generates its target** under every outcome script (the statement `Alt.Generates` of C10,
+    for scripts of any length) -/
+theorem model_solver_generates (hzero : InverseCircuitEndsInZero) (np : Nat) (adj : Nat → Nat → Bool)
+    (hsym : ∀ i j, adj i j = adj j i) (ne : Nat) (ops : List COp) (h : modelSolver np adj = some (ne, ops)) :
+    ∀ script : List Bool, ∃ rs, stabRun ne np .prob script ops = some rs ∧ SpanEq (STab.ofTab rs.t) (targetSTab np ne adj) := by
+  intro script
+  unfold modelSolver at h
+  cases hs : Solver.solve (graphSTab np adj) with
+  | error e => rw [hs] at h; cases h
+  | ok s =>
+    rw [hs] at h
+    simp only [Option.some.injEq, Prod.mk.injEq] at h
+    obtain ⟨rfl, rfl⟩ := h
+    obtain ⟨rs, h1, _, h3, h4⟩ := solve_returns_correct hzero np adj hsym s hs script
+    exact ⟨rs, h1, h3, fun p hp => (h4 p).1 hp, fun p hp => (h4 p).2 hp⟩
+
+/-- and the model solver returns on every graph on ≥ 1 vertex without isolated vertex -/
+theorem model_solver_returns (hinv : InverseCircuitComplete) (np : Nat) (adj : Nat → Nat → Bool) (hnp : 0 < np)
+    (hsym : ∀ i j, adj i j = adj j i) (hirr : ∀ i, adj i i = false) (hiso : ∀ i, i < np → ∃ j, j < np ∧ adj i j = true) :
+    ∃ ne ops, modelSolver np adj = some (ne, ops) := by
+  obtain ⟨s, hs, _⟩ := solver_complete hinv np adj hnp hsym hirr hiso
+  exact ⟨s.ne, s.cops, by unfold modelSolver; rw [hs]⟩
+
 /-- the smallest instances of D3 evaluate as the theorem says: K1, 2·K1, K2 + K1 -/
 example : (match Solver.solve (graphSTab 1 fun _ _ => false) with | .error .index => true | _ => false) = true := by
   decide +kernel
